@@ -86,6 +86,10 @@ macro_rules! buf_get_impl {
 
 // https://en.wikipedia.org/wiki/Sign_extension
 fn sign_extend(val: u64, nbytes: usize) -> i64 {
+    if nbytes == 0 {
+        // a zero-width integer is 0; shifting by the full 64 bits would overflow
+        return 0;
+    }
     let shift = (8 - nbytes) * 8;
     (val << shift) as i64 >> shift
 }
